@@ -314,17 +314,89 @@ func c09g2Cursor(c *eng.Ctx) {
 	if f := c.Fn("raft.(*FSM).witnessSnapshot"); f != nil {
 		c.Clause("R5", "C09.8")
 		var mem []ssa.Instruction
-		for _, s := range eng.Calls(f, `atomic\.Uint64\)\.Store$`) {
-			if strings.HasSuffix(eng.Expr(s.Common().Args[0]), ".latestIndex") {
+		for _, s := range eng.Calls(f, `atomic\.Uint64\)\.(Store|CompareAndSwap)$`) {
+			a := s.Common().Args
+			if strings.HasSuffix(eng.Expr(a[0]), ".latestIndex") {
 				mem = append(mem, s)
-				expect(f, "witnessed cursor index", s, s.Common().Args[1], `^metadata\.Index$`, "the in-memory cursor mirrors what was persisted")
+				expect(f, "witnessed cursor index", s, a[len(a)-1], `^metadata\.Index$`, "the in-memory cursor mirrors what was persisted")
 			}
 		}
 		c.Clause("R2", "C09.8")
-		if c.Floor(f, "f.latestIndex.Store", len(mem), 1) {
+		if c.Floor(f, "write of f.latestIndex", len(mem), 1) {
 			c.Cut(f, "in-memory cursor moved by a snapshot", mem, eng.GCallOK(f, `^raft\.writeSnapshotMetaToDB$`), nil)
+			// raft persists a snapshot (runSnapshots goroutine) while the state machine keeps
+			// applying batches (runFSM goroutine): the snapshot's index may be behind the
+			// cursor by then, and the cursor may only move forwards
+			c.Cut(f, "in-memory cursor moved by a snapshot", mem, c09g2Forward(f, `Load\([^)]*latestIndex|LatestState\(`), nil)
+		}
+		// ... and the persisted cursor of the live database likewise, decided inside the
+		// bolt update that writes it (bolt serialises it against the batch update)
+		for _, wc := range eng.Calls(f, `^raft\.writeSnapshotMetaToDB$`) {
+			w := wc.Common().StaticCallee()
+			if w == nil {
+				continue
+			}
+			assume := map[string]bool{}
+			for i, a := range wc.Common().Args {
+				if cst, ok := a.(*ssa.Const); ok && i < len(w.Params) && cst.Value != nil && (eng.Expr(cst) == "true" || eng.Expr(cst) == "false") {
+					assume[`^\^?`+reQuote(eng.VarName(w.Params[i]))+`$`] = eng.Expr(cst) == "true"
+				}
+			}
+			n := 0
+			for _, clo := range eng.Closures(w) {
+				var puts []ssa.Instruction
+				for _, p := range eng.Calls(clo, `bbolt\.Bucket\)\.Put$`) {
+					if strings.Contains(eng.ExprDeep(p.Common().Args[1]), "latestIndexKey") {
+						puts = append(puts, p)
+					}
+				}
+				if len(puts) == 0 {
+					continue
+				}
+				n += len(puts)
+				// (a database that records no cursor yet has nothing to compare with)
+				c.Cut(clo, "persisted cursor of the live database moved by a snapshot", puts, eng.Or(c09g2Forward(clo, `\.Index$`), eng.GD(clo, `Bucket\)\.Get\(.*latestIndexKey\)\)? == nil$`, true)), assume)
+			}
+			c.Floor(w, "write of latestIndexKey on behalf of witnessSnapshot", n, 1)
 		}
 	}
+}
+
+// c09g2Forward: the edges of fn on which an ordered comparison between
+// metadata.Index and the current cursor (a value rendering matching curPat)
+// has established that the snapshot's index is not behind the cursor.
+func c09g2Forward(fn *ssa.Function, curPat string) eng.Guard {
+	re := regexp.MustCompile(curPat)
+	isNew := func(v ssa.Value) bool { return strings.HasSuffix(eng.ExprDeep(v), "metadata.Index") }
+	isCur := func(v ssa.Value) bool { return !isNew(v) && re.MatchString(eng.ExprDeep(v)) }
+	g := eng.Guard{Desc: "comparison of metadata.Index with the current cursor says 'not behind'"}
+	for _, b := range fn.Blocks {
+		ifi := eng.IfOf(b)
+		if ifi == nil {
+			continue
+		}
+		bo, ok := ifi.Cond.(*ssa.BinOp)
+		if !ok {
+			continue
+		}
+		fwdOnTrue := false
+		switch {
+		case (bo.Op == token.LSS || bo.Op == token.LEQ) && isCur(bo.X) && isNew(bo.Y):
+			fwdOnTrue = true
+		case (bo.Op == token.GTR || bo.Op == token.GEQ) && isNew(bo.X) && isCur(bo.Y):
+			fwdOnTrue = true
+		case (bo.Op == token.LSS || bo.Op == token.LEQ) && isNew(bo.X) && isCur(bo.Y):
+		case (bo.Op == token.GTR || bo.Op == token.GEQ) && isCur(bo.X) && isNew(bo.Y):
+		default:
+			continue
+		}
+		succ := 1
+		if fwdOnTrue {
+			succ = 0
+		}
+		g.Edges = append(g.Edges, eng.Edge{From: b, Succ: succ})
+	}
+	return g
 }
 
 // c09g2LeaderVerdict (C09.9): the verdict applyLog reports for a transaction
@@ -456,6 +528,18 @@ func c09g2RecordOperands(c *eng.Ctx) {
 	if f := c.Fn("raft.(*fsmTxnCommitIndexApplicationState).finishTxn"); f != nil {
 		for _, cl := range eng.Calls(f, `fsmTxnCommitIndexTracker\)\.logTxnWrites$`) {
 			c.Prov(f, "write set handed to the record", cl, cl.Common().Args[2], `^field:s\.modifiedMap$`)
+		}
+	}
+	// the record decides 'may this write have changed the listing' with the test the listing itself
+	// uses: raw prefix match of the written key against the listed prefix (ListPage/listPageInner
+	// list "foobar" under "foo"); a prefix derived from it (e.g. with "/" appended) misses such keys
+	if f := c.Fn("raft.(*fsmTxnCommitIndexTracker).hasModifiedListEntry"); f != nil {
+		hp := eng.Calls(f, `^strings\.HasPrefix$`)
+		if c.Floor(f, "prefix test of a recorded write", len(hp), 1) {
+			for _, cl := range hp {
+				a := cl.Common().Args
+				c.Prov(f, "prefix a recorded write is tested against", cl, a[1], `^param:key$`)
+			}
 		}
 	}
 	if f := c.Fn("raft.(*fsmTxnCommitIndexApplicationState).doVerifyRead"); f != nil {
